@@ -93,6 +93,9 @@ func addSyncHooks(h map[string]hookFn) {
 		}
 		return p
 	}
+	h["github.com/jackc/puddle.nanotime"] = func(i *interpreter, fr *frame, fn *ssa.Function, args []value) value {
+		return i.nowNanos()
+	}
 	h["time.AfterFunc"] = func(i *interpreter, fr *frame, fn *ssa.Function, args []value) value {
 		t := &modelTimer{deadline: i.nowNanos() + i.concreteInt64(args[0], "timer duration"), fn: args[1]}
 		i.timers = append(i.timers, t)
